@@ -6,6 +6,7 @@ package relationtuple
 import (
 	"context"
 	"fmt"
+	"strconv"
 	"sync"
 
 	"github.com/gofrs/uuid"
@@ -112,7 +113,9 @@ func (s *SubjectSet) Equals(other Subject) bool {
 }
 
 func (s *SubjectSet) UniqueID() uuid.UUID {
-	return uuid.NewV5(s.Object, s.Namespace+"-"+s.Relation)
+	// The length prefix keeps the name unambiguous: without it ("a-b", "c")
+	// and ("a", "b-c") would get the same ID.
+	return uuid.NewV5(s.Object, strconv.Itoa(len(s.Namespace))+"-"+s.Namespace+"-"+s.Relation)
 }
 
 func (s *SubjectSet) String() string {
